@@ -28,7 +28,7 @@ type (
 	Error        = rn.Error
 	OpError      = rn.OpError
 	AddrError    = rn.AddrError
-	TCPConn      = rn.TCPConn
+	TCPConn      = vnet.Conn // so that conn.(*net.TCPConn) succeeds on the virtual network as it does on a real one
 	TCPListener  = rn.TCPListener
 	ListenConfig = rn.ListenConfig
 	Resolver     = rn.Resolver
